@@ -115,7 +115,7 @@ def program_for(rng, items):
                 lines.append(f'{name} = {v - 1}')
                 exprs.append(f'{name} + 1')
             else:
-                lines.append(f'{name} = {v}')
+                lines.append(f'{name} = {v}' if v != -2147483648 else f'{name} = -2147483647 - 1')
                 exprs.append(name)
         else:
             lit = values.qb_float_literal(abs(v), ty)
